@@ -42,6 +42,8 @@ type cop struct {
 	raw []byte
 	// D
 	closeErr bool // the connection's Close() returns an error
+	// S: the connection refuses to arm a read deadline during this call
+	dlErr bool
 }
 
 type ccfg struct {
@@ -237,6 +239,9 @@ func runClientOps(cf ccfg, ops []cop) []copResult {
 					}
 					if cs := f.All(); len(cs) > 0 {
 						cs[len(cs)-1].SetScript(nil)
+						if o.dlErr {
+							cs[len(cs)-1].SetDeadlineErr(errors.New("fake: deadline cannot be set"))
+						}
 					}
 					err = cl.Send(o.msg)
 				case "W":
